@@ -96,6 +96,8 @@ harnesses! {
     fn c11_q_iter_amino [10] { iter_fwd!(Amino, oracle::AMINO, 21, 2, 4) }
     fn c11_q_iter_miupac [10] { iter_fwd!(masked::Iupac, oracle::MIUPAC, 25, 2, 4) }
     fn c11_t_iter_iupac [10] { iter_fwd!(Iupac, oracle::IUPAC, 32, 2, 6) }
+    fn c11_q_iter_text_raw [10] { iter_fwd!(text::Dna, oracle::TEXT_RAW, 16, 2, 2) }
+    fn c11_q_rev_iter_text_raw [10] { iter_rev!(text::Dna, oracle::TEXT_RAW, 16, 2, 2) }
     fn c11_q_rev_iter_dna [10] { iter_rev!(Dna, oracle::DNA, 64, 2, 6) }
     fn c11_q_rev_iter_amino [10] { iter_rev!(Amino, oracle::AMINO, 21, 2, 4) }
     fn c11_t_rev_iter_miupac [10] { iter_rev!(masked::Iupac, oracle::MIUPAC, 25, 2, 4) }
